@@ -1,5 +1,5 @@
 #!/usr/bin/env python3
-"""tools_mutate_auto.py <ID> <n> [seed] : sensitivity sampling.
+"""tools_mutate_auto.py <ID> <n> [seed] [--mech] [--file=<substr>]... : sensitivity sampling.
 
 Draws n single-token mutants in the anchor files of property <ID> (properties.jsonl), applies each in a scratch
 worktree of /repo HEAD (outside /repo and /verif, removed at the end), and runs the property's quick check against
@@ -10,6 +10,7 @@ import hashlib, json, os, random, re, shutil, subprocess, sys, time
 
 args = [a for a in sys.argv[1:] if not a.startswith("--")]
 MECH = "--mech" in sys.argv  # only inside the functions / files the property's mechanism anchors name
+ONLY = [a.split("=", 1)[1] for a in sys.argv[1:] if a.startswith("--file=")]  # only anchor files whose path contains one of these
 pid, n = args[0], int(args[1])
 seed = int(args[2]) if len(args) > 2 else 1
 rnd = random.Random(seed * 1000003 + int(pid[1:]))
@@ -45,7 +46,7 @@ for a in anchors:
     p = os.path.join(wt, a)
     if os.path.isdir(p):
         continue
-    if os.path.isfile(p) and p.endswith(".go") and not p.endswith("_test.go"):
+    if os.path.isfile(p) and p.endswith(".go") and not p.endswith("_test.go") and (not ONLY or any(o in a for o in ONLY)):
         files.append(a)
 mech_words, mech_files = set(), set()
 for m in props[pid]["anchors"].get("mechanism", []):
@@ -84,7 +85,7 @@ for a in files:
                 sites.append((a, i, m.start(), m.end(), rep))
 rnd.shuffle(sites)
 os.makedirs("/verif/sensitivity", exist_ok=True)
-out = open("/verif/sensitivity/%s%s.jsonl" % (pid, "-mech" if MECH else ""), "a")
+out = open("/verif/sensitivity/%s%s.jsonl" % (pid, "-mech" if MECH else ("-files" if ONLY else "")), "a")
 done = 0
 try:
     for (a, i, s, e, rep) in sites:
